@@ -47,8 +47,8 @@ def run(chk: Check) -> None:
                 del scn["_metas"][rel], scn["files"][rel]
         expect = {}
         for rel, meta in scn["_metas"].items():
-            s = by_key[meta["seed"]]
-            d = deltas.delta(s.input, s.expected)
+            # the seed's own texts (two tests of different classes may share a name, i.e. a key)
+            d = deltas.delta(meta.get("seed_input", by_key[meta["seed"]].input), meta.get("seed_expected", by_key[meta["seed"]].expected))
             if d is None:
                 continue
             expect[rel] = {"minus": dict(d[0]), "plus": dict(d[1])}
